@@ -75,6 +75,7 @@ type Exec struct {
 	topDecr0   *Term
 	specDefs   map[string]*SpecDef
 	fuel       int
+	kvHandles  map[string]kvHandle
 }
 
 func NewExec(p *Program) *Exec {
